@@ -306,7 +306,8 @@ func reifyStruct(opts *options, orig reflect.Value, cfg *Config) Error {
 					if err != nil {
 						return err
 					}
-					vField.Set(v)
+					// (the list may sit behind an interface or pointers: store into the field)
+					fInfo.value.Set(pointerize(fInfo.value.Type(), v.Type(), v))
 
 				default:
 					return raiseInlineNeedsObject(cfg, fInfo.name, fInfo.value.Type())
